@@ -1,5 +1,5 @@
-(* C10: the decoder models on arbitrary byte strings: which outcomes are
-   possible, shape of the result, the exact crash region of the
+(* C10: the decoder models on arbitrary byte strings: the only possible
+   outcomes are an array of the requested shape or the format error, for the
    compressed_segmentation decoder, the raw decoder and the JPEG glue. *)
 From Coq Require Import NArith ZArith List Bool Lia ZifyBool ZifyNat ZifyN.
 From NGS Require Import Val Ints Words Arr4 CSegEncode CSegDecode RawCodec JpegGlue
@@ -28,23 +28,28 @@ Qed.
 Lemma lenN_zlen (l : list N) : Z.of_N (lenN l) = zlen l.
 Proof. unfold lenN, zlen. lia. Qed.
 
-(* ---------- outcomes that are not crashes ---------- *)
+(* ---------- outcomes that are a result or the format error ---------- *)
 
-Lemma is_crash_bind {A B} (o : outcome A) (f : A -> outcome B) :
-  is_crash o = false -> (forall a, o = Ok a -> is_crash (f a) = false) ->
-  is_crash (bind o f) = false.
-Proof. destruct o; simpl; intros H1 H2; auto. Qed.
+Definition fine {A} (o : outcome A) : bool :=
+  match o with Ok _ | FormatErr => true | _ => false end.
 
-Lemma mapM_no_crash {A B} (f : A -> outcome B) l :
-  (forall x, In x l -> is_crash (f x) = false) -> is_crash (mapM f l) = false.
+Lemma fine_bind {A B} (o : outcome A) (f : A -> outcome B) :
+  fine o = true -> (forall a, o = Ok a -> fine (f a) = true) -> fine (bind o f) = true.
+Proof. destruct o; simpl; intros H1 H2; auto; discriminate. Qed.
+
+Lemma mapM_fine {A B} (f : A -> outcome B) l :
+  (forall x, In x l -> fine (f x) = true) -> fine (mapM f l) = true.
 Proof.
   induction l as [|x l IH]; intros H; [reflexivity|].
-  cbn [mapM]. apply is_crash_bind.
+  cbn [mapM]. apply fine_bind.
   - apply H. now left.
-  - intros b _. apply is_crash_bind.
+  - intros b _. apply fine_bind.
     + apply IH. intros y Hy. apply H. now right.
     + reflexivity.
 Qed.
+
+Lemma fine_cases {A} (o : outcome A) : fine o = true -> o = FormatErr \/ exists a, o = Ok a.
+Proof. destruct o; simpl; intros H; try discriminate; eauto. Qed.
 
 Lemma mapM_length {A B} (f : A -> outcome B) l r : mapM f l = Ok r -> length r = length l.
 Proof.
@@ -102,11 +107,12 @@ Lemma u32_at_nonneg buf off : 0 <= u32_at buf off.
 Proof. unfold u32_at. lia. Qed.
 
 (* the only crash of a block iteration is struct.error, and it happens exactly
-   when the channel buffer has no room for the block header *)
+   when the channel buffer has no room for the block header; np.frombuffer is
+   never reached with a misaligned length *)
 Lemma decode_block_crash dt cbuf B k :
   if zlen cbuf <? 8 * Z.of_N k + 8
   then decode_block dt cbuf B k = Crash StructError
-  else is_crash (decode_block dt cbuf B k) = false.
+  else fine (decode_block dt cbuf B k) = true.
 Proof.
   unfold decode_block.
   destruct (Z.ltb_spec (zlen cbuf) (8 * Z.of_N k + 8)) as [Hs|Hl]; [reflexivity|].
@@ -147,10 +153,10 @@ Proof.
     destruct (lookup_all _ _); reflexivity.
 Qed.
 
-Lemma decode_channel_no_crash dt cbuf B nblk :
-  8 * Z.of_N nblk <= zlen cbuf -> is_crash (decode_channel dt cbuf B nblk) = false.
+Lemma decode_channel_fine dt cbuf B nblk :
+  8 * Z.of_N nblk <= zlen cbuf -> fine (decode_channel dt cbuf B nblk) = true.
 Proof.
-  intros H. unfold decode_channel. apply mapM_no_crash. intros k Hk.
+  intros H. unfold decode_channel. apply mapM_fine. intros k Hk.
   apply range_In in Hk.
   assert (Hc := decode_block_crash dt cbuf B k).
   destruct (Z.ltb_spec (zlen cbuf) (8 * Z.of_N k + 8)); [lia|exact Hc].
@@ -158,52 +164,24 @@ Qed.
 
 (* ---------- the channel loop ---------- *)
 
-Lemma decode_channels_no_crash dt buf B nblk offs :
+Lemma decode_channels_fine dt buf B nblk offs :
   Forall (fun o => 0 <= o) offs ->
-  offsets_guard (Z.of_N nblk) offs = true ->
-  is_crash (decode_channels dt buf B nblk offs) = false.
+  fine (decode_channels dt buf B nblk offs) = true.
 Proof.
-  induction offs as [|off rest IH]; intros Hpos Hg; [reflexivity|].
+  induction offs as [|off rest IH]; intros Hpos; [reflexivity|].
   cbn [decode_channels].
   destruct (Z.ltb_spec (zlen buf) (off + 8 * Z.of_N nblk)) as [|Hlen]; [reflexivity|].
   inversion Hpos as [|? ? Hoff Hrest]; subst.
-  apply is_crash_bind.
-  - apply decode_channel_no_crash.
-    destruct rest as [|next rest'].
-    + rewrite py_slice_length. unfold py_norm.
-      destruct (Z.ltb_spec off 0); [lia|]. destruct (Z.ltb_spec (zlen buf) 0); lia.
-    + cbn [offsets_guard] in Hg. apply andb_prop in Hg. destruct Hg as [Hg1 Hg2].
-      apply Z.leb_le in Hg1.
-      rewrite py_slice_length. unfold py_norm.
-      destruct (Z.ltb_spec off 0); [lia|]. destruct (Z.ltb_spec next 0); lia.
-  - intros blocks _. apply is_crash_bind; [|reflexivity].
-    apply IH; [assumption|].
-    destruct rest as [|next rest']; [reflexivity|].
-    cbn [offsets_guard] in Hg. apply andb_prop in Hg. tauto.
+  apply fine_bind.
+  - apply decode_channel_fine. rewrite py_slice_length. unfold py_norm.
+    destruct (Z.ltb_spec off 0); [lia|]. destruct (Z.ltb_spec (zlen buf) 0); lia.
+  - intros blocks _. apply fine_bind; [|reflexivity]. now apply IH.
 Qed.
 
 Lemma channel_offsets_nonneg buf nc : Forall (fun o => 0 <= o) (channel_offsets buf nc).
 Proof.
   unfold channel_offsets. apply Forall_forall. intros o Ho. apply in_map_iff in Ho.
   destruct Ho as (c & <- & _). assert (H := u32_at_nonneg buf (4 * Z.of_N c)). lia.
-Qed.
-
-(* C10: on the guard the decoder never escapes with anything but the
-   documented format error *)
-Theorem cseg_decode_no_crash_on_guard dt nc g cx cy cz buf :
-  cseg_decode_guard nc g cx cy cz buf = true ->
-  forall k, cseg_decode dt nc g cx cy cz buf <> Crash k.
-Proof.
-  intros Hg k Hc.
-  assert (Hn : is_crash (cseg_decode dt nc g cx cy cz buf) = false); [|rewrite Hc in Hn; discriminate].
-  clear Hc. unfold cseg_decode_guard in Hg. unfold cseg_decode.
-  apply andb_prop in Hg. destruct Hg as [Hz Hg].
-  destruct ((g_bx g =? 0) || (g_by g =? 0) || (g_bz g =? 0))%N; [discriminate|].
-  set (nblk := (cdiv cx (g_bx g) * cdiv cy (g_by g) * cdiv cz (g_bz g))%N) in *.
-  destruct (zlen buf <? Z.of_N (nc * (4 + 8 * nblk))); [reflexivity|].
-  cbn [orb] in Hg.
-  apply is_crash_bind; [|reflexivity].
-  apply decode_channels_no_crash; [apply channel_offsets_nonneg|exact Hg].
 Qed.
 
 (* every result has exactly the requested shape, and that many entries *)
@@ -220,65 +198,26 @@ Proof.
   - apply tab4_length.
 Qed.
 
-(* the only exception other than the format error is struct.error *)
-Lemma mapM_crash_kind {A B} (f : A -> outcome B) l k :
-  mapM f l = Crash k -> exists x, In x l /\ f x = Crash k.
-Proof.
-  induction l as [|x l IH]; cbn [mapM]; [discriminate|].
-  destruct (f x) eqn:E; cbn [bind]; try discriminate.
-  - destruct (mapM f l) eqn:E2; cbn [bind]; try discriminate.
-    intros H. inversion H; subst. destruct (IH eq_refl) as (y & Hy & Hfy). exists y. split; [now right|assumption].
-  - intros H. inversion H; subst. exists x. split; [now left|assumption].
-Qed.
-
-Lemma decode_block_crash_kind dt cbuf B k c :
-  decode_block dt cbuf B k = Crash c -> c = StructError /\ zlen cbuf < 8 * Z.of_N k + 8.
-Proof.
-  intros H. assert (Hc := decode_block_crash dt cbuf B k).
-  destruct (Z.ltb_spec (zlen cbuf) (8 * Z.of_N k + 8)).
-  - rewrite Hc in H. inversion H. auto.
-  - rewrite H in Hc. discriminate.
-Qed.
-
-Lemma decode_channels_crash_kind dt buf B nblk offs c :
-  decode_channels dt buf B nblk offs = Crash c -> c = StructError.
-Proof.
-  induction offs as [|off rest IH]; cbn [decode_channels]; [discriminate|].
-  destruct (zlen buf <? _); [discriminate|].
-  destruct (decode_channel dt _ B nblk) eqn:E; cbn [bind]; try discriminate.
-  - destruct (decode_channels dt buf B nblk rest) eqn:E2; cbn [bind]; try discriminate.
-    intros H. inversion H; subst. now apply IH.
-  - intros H. inversion H; subst. unfold decode_channel in E.
-    apply mapM_crash_kind in E. destruct E as (x & _ & Hx).
-    now apply decode_block_crash_kind in Hx.
-Qed.
-
-Theorem cseg_decode_crash_is_struct_error dt nc g cx cy cz buf k :
+(* C10: for EVERY byte string, chunk size, (non-zero) block size, channel count
+   and label type the decoder returns an array of exactly the requested shape
+   or reports the format error; no other exception escapes *)
+Theorem cseg_decode_total dt nc g cx cy cz buf :
   (g_bx g <> 0 /\ g_by g <> 0 /\ g_bz g <> 0)%N ->
-  cseg_decode dt nc g cx cy cz buf = Crash k -> k = StructError.
+  cseg_decode dt nc g cx cy cz buf = FormatErr \/
+  exists a, cseg_decode dt nc g cx cy cz buf = Ok a /\
+            same_shape a nc cz cy cx /\ lenN (a_data a) = (nc * cz * cy * cx)%N.
 Proof.
-  intros (Hx & Hy & Hz). unfold cseg_decode.
-  destruct (N.eqb_spec (g_bx g) 0); [contradiction|].
-  destruct (N.eqb_spec (g_by g) 0); [contradiction|].
-  destruct (N.eqb_spec (g_bz g) 0); [contradiction|]. cbn [orb].
-  destruct (zlen buf <? _); [discriminate|].
-  destruct (decode_channels _ _ _ _ _) eqn:E; cbn [bind]; try discriminate.
-  intros H. inversion H; subst. now apply decode_channels_crash_kind in E.
-Qed.
-
-(* the witness of findings/C10.json: two channels, 1x1x1 chunk and block, the
-   second channel offset (0) lies before the first (2) *)
-Definition c10_witness : list N :=
-  [2; 0; 0; 0;  0; 0; 0; 0;  0; 0; 0; 0;  0; 0; 0; 0;
-   0; 0; 0; 0;  0; 0; 0; 0;  0; 0; 0; 0;  0; 0; 0; 0]%N.
-
-Theorem cseg_decode_refuted :
-  exists dt nc g cx cy cz buf,
-    cseg_decode_guard nc g cx cy cz buf = false /\
-    cseg_decode dt nc g cx cy cz buf = Crash StructError.
-Proof.
-  exists U32, 2%N, {| g_bx := 1; g_by := 1; g_bz := 1 |}, 1%N, 1%N, 1%N, c10_witness.
-  split; vm_compute; reflexivity.
+  intros (Hx & Hy & Hz).
+  assert (Hf : fine (cseg_decode dt nc g cx cy cz buf) = true).
+  { unfold cseg_decode.
+    destruct (N.eqb_spec (g_bx g) 0); [contradiction|].
+    destruct (N.eqb_spec (g_by g) 0); [contradiction|].
+    destruct (N.eqb_spec (g_bz g) 0); [contradiction|]. cbn [orb].
+    destruct (zlen buf <? _); [reflexivity|].
+    apply fine_bind; [|reflexivity].
+    apply decode_channels_fine, channel_offsets_nonneg. }
+  destruct (fine_cases _ Hf) as [E|[a E]]; [now left|right].
+  exists a. split; [exact E|]. now apply cseg_decode_shape in E.
 Qed.
 
 (* ---------- raw ---------- *)
@@ -303,31 +242,37 @@ Qed.
 
 (* ---------- JPEG glue ---------- *)
 
-Definition jpeg_guard (nc : N) (r : pil_result) : bool :=
+(* what Pillow hands over is h*w*bands samples *)
+Definition pil_wf (r : pil_result) : Prop :=
   match r with
-  | Opened mode _ _ LoadFail =>
-      ((nc =? 1)%N && negb (list_eqb mode mode_L)) || ((nc =? 3)%N && negb (list_eqb mode mode_RGB))
-  | _ => true
+  | Opened _ w h (Pixels bands px) => lenN px = (h * w * bands)%N
+  | _ => True
   end.
 
-Theorem jpeg_glue_on_guard nc cx cy cz r :
-  jpeg_guard nc r = true ->
-  jpeg_decode nc cx cy cz r = FormatErr \/
-  exists a, jpeg_decode nc cx cy cz r = Ok a /\ same_shape a nc cz cy cx.
+Lemma bands_first_length bands px :
+  lenN (bands_first bands px) = (bands * (lenN px / bands))%N.
 Proof.
-  intros Hg. unfold jpeg_decode. destruct r as [|mode w h ld]; [now left|].
-  destruct ((nc =? 1)%N && negb (list_eqb mode mode_L)) eqn:E1; [now left|].
-  destruct ((nc =? 3)%N && negb (list_eqb mode mode_RGB)) eqn:E2; [now left|].
-  destruct ld as [|bands px].
-  - cbn [jpeg_guard] in Hg. rewrite E1, E2 in Hg. discriminate.
-  - destruct (negb (lenN px =? nc * cz * cy * cx)%N); [now left|].
-    right. eexists. split; [reflexivity|]. repeat split.
+  unfold bands_first. apply lenN_flat_map_range. intros c _. apply lenN_map_range.
 Qed.
 
-Theorem jpeg_glue_refuted :
-  exists nc cx cy cz r, jpeg_guard nc r = false /\ jpeg_decode nc cx cy cz r = IOErr.
+(* whatever Pillow does with the bytes (oracle argument), the glue returns an
+   array of the requested shape or the format error *)
+Theorem jpeg_glue_total nc cx cy cz r :
+  pil_wf r ->
+  jpeg_decode nc cx cy cz r = FormatErr \/
+  exists a, jpeg_decode nc cx cy cz r = Ok a /\ same_shape a nc cz cy cx /\
+            lenN (a_data a) = (nc * cz * cy * cx)%N.
 Proof.
-  exists 1%N, 2%N, 2%N, 2%N, (Opened mode_L 2 4 LoadFail). split; reflexivity.
+  intros Hwf. unfold jpeg_decode. destruct r as [|mode w h ld]; [now left|].
+  destruct ((nc =? 1)%N && negb (list_eqb mode mode_L)); [now left|].
+  destruct ((nc =? 3)%N && negb (list_eqb mode mode_RGB)); [now left|].
+  destruct ld as [|bands px]; [now left|].
+  destruct (N.eqb_spec (lenN px) (nc * cz * cy * cx)) as [Hl|]; cbn [negb]; [|now left].
+  right. eexists. split; [reflexivity|]. split; [repeat split|]. cbn [a_data].
+  destruct (nc =? 3)%N; cbn [andb]; [|exact Hl].
+  destruct (N.eqb_spec bands 0) as [|Hb]; cbn [negb]; [exact Hl|].
+  rewrite bands_first_length. cbn [pil_wf] in Hwf. rewrite <- Hl, Hwf.
+  rewrite N.div_mul by exact Hb. lia.
 Qed.
 
 (* ---------- raw round trip: valid data is never rejected ---------- *)
